@@ -467,7 +467,7 @@ class CookieJar(AbstractCookieJar):
         # Create every combination of (domain, path) pairs.
         pairs = itertools.product(domains, paths)
 
-        path_len = len(request_url.path)
+        request_path = request_url.path
         # Point 2: https://www.rfc-editor.org/rfc/rfc6265.html#section-5.4
         for p in pairs:
             if p not in self._cookies:
@@ -478,8 +478,9 @@ class CookieJar(AbstractCookieJar):
                 if (*p, name) in self._host_only_cookies and domain != hostname:
                     continue
 
-                # Skip edge case when the cookie has a trailing slash but request doesn't.
-                if len(cookie["path"]) > path_len:
+                # The store key has trailing slashes removed; the cookie's own
+                # path, with them, has to be a prefix of the request path.
+                if not request_path.startswith(cookie["path"]):
                     continue
 
                 if is_not_secure and cookie["secure"]:
